@@ -360,3 +360,16 @@ def test_c04_two_lindblad_forms_from_one_sbi():
     with qr.eigenbasis_of(hh):
         a, b = L1.apply(rho), L2.apply(rho)
     assert numpy.allclose(a.data, ref, atol=1e-12) and numpy.allclose(b.data, ref, atol=1e-12)
+
+
+def test_c05_state_energy_under_wavelength_units():
+    """ccd1284: the energy of a vibronic state is converted as a total."""
+    with qr.energy_units("1/cm"):
+        m = qr.Molecule(elenergies=[0.0, 9000.0])
+        m.add_Mode(qr.Mode(frequency=1000.0))
+    es = qr.Aggregate(molecules=[m]).get_ElectronicState((1,), index=1)
+    with qr.energy_units("nm"):
+        assert abs(es.energy((1,)) - 1000.0) < 1e-6
+        assert abs(es.vibenergy((2,)) - 5000.0) < 1e-6
+    with qr.energy_units("1/cm"):
+        assert abs(es.energy((1,)) - 10000.0) < 1e-6
